@@ -16,34 +16,41 @@ package art
 
 //@ func searchNode4
 //@   mode bv
+//@   assigns nothing
 //@   ensures[first_equal_lane] mathint(result) == firstEq4(keys, b)
 
 //@ func insertPosNode4
 //@   mode bv
+//@   assigns nothing
 //@   ensures[first_lane_ge] mathint(result) == firstGe4(keys, b)
 
 //@ func getAtPos
 //@   mode bv
+//@   assigns nothing
 //@   requires 0 <= mathint(pos) && mathint(pos) <= 3
 //@   ensures[lane] result == lane(keys, pos)
 
 //@ func setAtPos
 //@   mode bv
+//@   assigns *keys
 //@   requires 0 <= mathint(pos) && mathint(pos) <= 3
 //@   ensures[lanes] forall(j, 0, 4, lane(*keys, j) == ite(j == mathint(pos), b, lane(old(*keys), j)))
 
 //@ func shiftLeftClear
 //@   mode bv
+//@   assigns *keys
 //@   requires 0 <= mathint(pos) && mathint(pos) <= 3
 //@   ensures[lanes] forall(j, 0, 4, lane(*keys, j) == ite(j < mathint(pos), lane(old(*keys), j), ite(j == mathint(pos), 0, lane(old(*keys), j-1))))
 
 //@ func shiftRightClear
 //@   mode bv
+//@   assigns *keys
 //@   requires 1 <= mathint(pos) && mathint(pos) <= 4
 //@   ensures[lanes] forall(j, 0, 4, lane(*keys, j) == ite(j < mathint(pos)-1, lane(old(*keys), j), ite(j < 3, lane(old(*keys), j+1), lane(old(*keys), 3))))
 
 //@ func construct
 //@   mode bv
+//@   assigns nothing
 //@   ensures[lanes] lane(result,0) == a && lane(result,1) == b && lane(result,2) == c && lane(result,3) == d
 
 //@ func deconstruct
